@@ -88,6 +88,9 @@ def check(report: Report, repo: Repo) -> None:
     scenarios.append(("frozen parameters (tagged and allowed-untagged)", [p1, pu, p2], dict(lr=lr, weight_decay=wd, allow_non_unit_scaling_params=True), [(p1, lr, wd, {}), (pu, lr, wd, {}), (p2, lr, wd, {})]))
 
     p1, p2, p3, pu = mk()
+    # inside one group an allowed untagged parameter precedes tagged ones: the input order is kept
+    scenarios.append(("one group mixing untagged and tagged parameters", [{"params": [pu, p1, p3], "lr": glr}, {"params": [p2]}], dict(lr=lr, weight_decay=wd, allow_non_unit_scaling_params=True), [(pu, glr, wd, {}), (p1, glr, wd, {}), (p3, glr, wd, {}), (p2, lr, wd, {})]))
+    p1, p2, p3, pu = mk()
     # concrete option values, the falsy ones included (eps=0, amsgrad=False, momentum=0 are legitimate settings)
     gx = {"params": [p1, p3], "eps": sp.Integer(0), "amsgrad": False, "betas": (sp.Rational(9, 10), sp.Rational(999, 1000)), "momentum": sp.Integer(0), "foreach": None, "fused": True}
     ex = {k_: gx[k_] for k_ in gx if k_ != "params"}
